@@ -2,5 +2,5 @@
 META = dict(level='proof', level_text='wip', level_note='wip', trusted_base=[], assumptions=[], not_covered=[])
 UNITS = [
     Unit('split.bp', 'c16', 'verif_split', mode='bp', unwind=10, clause='helper'),
-    Unit('shape_matmul.bp', 'c16', 'verif_shape_matmul', mode='bp', unwind=10, unwind_loops={'hybrid_ndarray.*resize': 3, 'detail_init_': 3}, clause='matmul shape'),
+    Unit('shape_matmul.bp', 'c16', 'verif_shape_matmul', mode='bp', unwind=10, unwind_loops={'hybrid_ndarray.*resize': 3, 'detail_init_': 3}, object_bits=12, clause='matmul shape'),
 ]
